@@ -218,3 +218,12 @@ def c03(F, R, tier):
 def c14(F, R, tier):
     import c14 as mod
     mod.check(F, R)
+
+
+@prop("C18",
+      technique="static: panic census over the functions reachable (MIR call graph, dyn calls expanded) from the public stages -- every indexing, unwrap/expect, panic!/unreachable!, integer arithmetic and panicking Vec/str operation in their typed HIR must be discharged by a recognised structural guard or by the reviewed table; loop-bound rule; recursion / mutual recursion inventory with reviewed measures; allocation-bound rule for user-sized ranges",
+      explanation="Decides for the 42 entry points (parse, format, type-check, transform, linearize, standardise, tableau, the five solver entries, RoocSolver, PipeRunner, error renderers and Display of the model types) and the ~550 functions reachable from them: (C-GUARD/C-TABLE/C-PANIC) each of the ~270 constructs that can panic is either discharged automatically (index bound by a 0..len loop or enumerate of the same collection, constant index / remove(0) / unwrap after an `is_empty()/is_none()/len() <` early return, contains_key, full-range slices, len+1 ...) or matches an entry of rules/c18_sites.json that names the guard or invariant justifying it (multiset semantics: a new site with the same text is new); anything else is reported; (L) each of the 10 non-for loops has a counter-bounded exit, consumes a collection it does not grow, or has a reviewed variant; (R, R-SCC) every directly or mutually recursive group is a structural descent on an owned/borrowed tree (recognised) or has a reviewed measure; (UNBOUNDED-ALLOC) a Range whose bounds come from call arguments and that is collected must be preceded by a length test. The MIR panic-terminator count of the same functions is reported next to the HIR census as a cross-check. NOT decided: stack depth (nesting is bounded by the input, not by the code), running time, memory use, panics inside dependencies (pest, microlp, clarabel, indexmap) and inside derive-generated code.")
+def c18(F, R, tier):
+    import c18 as mod
+    mod.check(F, R, tier)
+    mod.unbounded_alloc(F, R)
